@@ -1340,6 +1340,10 @@ def make_builtins(I):
                 if I.w.branch(ops.mk(n >= 0), "int(str) is a digit string"):
                     return ops.mk(n)
                 I.raise_("ValueError", "invalid literal for int()")
+        if type(v).__name__ == "FSpec":
+            if v.kind == "nan":
+                I.raise_("ValueError", "cannot convert float NaN to integer")
+            I.raise_("OverflowError", "cannot convert float infinity to integer")
         if isinstance(v, (int, float, str, bool)):
             try:
                 return int(v, *a[1:])  if isinstance(v, str) else int(v)
@@ -1361,6 +1365,9 @@ def make_builtins(I):
                 return Sym(v.t)
             if v.kind in ("int", "bool"):
                 return Sym(to_real_term(v))
+        if type(v).__name__ == "FSpec":
+            from .vals import FSpec
+            return FSpec(v.kind)           # float(inf / -inf / nan of any floating type) is the same special value as a Python float
         if isinstance(v, (int, float, bool, str)):
             try:
                 return float(v)
